@@ -117,7 +117,7 @@ fn viol(rep: &Reporter, key: String, what: String, case: &Case, c: &Chooser, bas
     });
 }
 
-pub fn check_case(rep: &Reporter, case: &Case, c: &Chooser, base: Base, cnt: &Counters) {
+pub(crate) fn check_case(rep: &Reporter, case: &Case, c: &Chooser, base: Base, cnt: &Counters) {
     cnt.evals.fetch_add(1, Ordering::Relaxed);
     let tags = if case.tags.is_empty() { String::new() } else { format!("[{}]", case.tags.join(",")) };
     // machinery self-check: the reference parser must read back the model
